@@ -137,14 +137,14 @@ namespace RecInt
     // a = (b*c).Low
     template <size_t K, typename T>
     inline __RECINT_IS_ARITH(T, rint<K>&) mul(rint<K>& a, const rint<K>& b, const T& c) {
-        mul(a.Value, b.Value, c);
+        a.Value = b.Value * c;
         return a;
     }
 
     // a = (a*b).Low
     template <size_t K, typename T>
     inline __RECINT_IS_ARITH(T, rint<K>&) mul(rint<K>& a, const T& b) {
-        mul(a.Value, b);
+        a.Value *= b;
         return a;
     }
 
